@@ -11,7 +11,8 @@ from fractions import Fraction
 
 from harness.props import c13 as H
 
-RULE = ("1-3 parameters (bool/int/float/str with width/sign suffix, scalar or array) at depth 0-3, each a definition or "
+RULE = ("1-3 parameters (bool/int/float/str with every width/sign suffix: [u]int[16|32|64], float[32|64|128]; the "
+        "final parameter must keep class, width and sign of the first occurrence; scalar or array) at depth 0-3, each a definition or "
         "declaration followed by 0-6 typed/untyped modifications, interleaved; values from a boundary grid (0, -0.0, +-1, "
         "large, false, '', none); modification units absent / identical / same dimension (prefixed, compound, custom $unit) "
         "/ other dimension / a unit on a unit-less definition; injected: type change, assignment after !constant, assignment to an undefined path, declared "
@@ -84,6 +85,27 @@ def gen_value(rng, ty, shape):
     return build(shape)
 
 
+def flatten(v):
+    if isinstance(v, list):
+        for x in v:
+            yield from flatten(x)
+    else:
+        yield v
+
+
+def zero_value(rng, ty, shape):
+    """a zero literal (all-zero array) of a numeric type"""
+    def build(sh):
+        if not sh:
+            t = rng.choice(["0", "-0.0", "0.0", "0e0"] if ty == "float" else ["0", "0", "-0"])
+            return t, (H.frac_of(t) if ty == "float" else 0)
+        parts = [build(sh[1:]) for _ in range(sh[0])]
+        return "[" + ",".join(q[0] for q in parts) + "]", [q[1] for q in parts]
+    if ty not in ("float", "int"):
+        return gen_value(rng, ty, shape)
+    return build(shape or [])
+
+
 class Param:
     def __init__(self, rng, path):
         self.path = path
@@ -123,7 +145,7 @@ def gen_program(rng):
     # injected errors
     inj = None
     r = rng.random()
-    if r < 0.07:
+    if r < 0.06:
         inj = "type"
     elif r < 0.14:
         inj = "dimension"
@@ -245,10 +267,16 @@ def render_program(rng, params, order, inj):
                 lit, val = gen_value(rng, mty, p.shape)
                 unit = None
                 features.add("type-change")
-            if this == inj_at and inj == "dimension" and p.unit and val is not None:
-                fam = rng.choice([f for f in sorted(H.LIN_UNITS) if f != p.fam])
-                unit = rng.choice(H.LIN_UNITS[fam])
-                features.add("other-dimension")
+            if this == inj_at and inj == "dimension" and p.unit:
+                # boundary values matter most here: zero in a unit of another dimension must still fail
+                if rng.random() < 0.5:
+                    lit, val = zero_value(rng, mty, p.shape)
+                if val is not None:
+                    fam = rng.choice([f for f in sorted(H.LIN_UNITS) if f != p.fam])
+                    unit = rng.choice(H.LIN_UNITS[fam])
+                    features.add("other-dimension")
+                    if val == 0 or (isinstance(val, list) and not any(flatten(val))):
+                        features.add("other-dimension:zero")
             unitless_err = False
             if this == inj_at and inj == "unitless" and p.unit is None and p.ty in ("int", "float") and val is not None:
                 unit = rng.choice(H.LIN_UNITS[rng.choice(sorted(H.LIN_UNITS))])
@@ -396,6 +424,9 @@ def correspond(ctx):
         for f in feats:
             ctx.count("feature." + f)
         ctx.count("params.%d" % len(params))
+        for q in params:
+            if q.nmods:
+                ctx.count("modified.kw." + q.kw)
         ctx.count("expect." + ("err" if expected == "err" else "ok"))
         c = H.run_case(ctx, "chain", text, lines, expected, H.units_in(lines) | {"m"}, nontriv)
         c["features"] = feats
